@@ -724,6 +724,8 @@ def check(case):
         cls.append('oob_expected')
     if len(calls) > 1:
         cls.append('multi_batch')
+    if len(calls) >= 3 and all(len(b) == 1 for b in calls):
+        cls.append('single_point_history')
     res.classes = cls
     res.nontrivial = judged_inb and (nonpos or dim >= 2 or any_boundary)
     return res
@@ -871,14 +873,43 @@ def strategy(semi=False):
                      'c0': float(draw(st.integers(-5, 5)))}
         else:
             rough = {'kind': 'const', 'c0': draw(st.sampled_from([0.0, 1.0, -2.5, 1e3]))}
-        ncalls = draw(st.sampled_from([1, 2, 2, 3]))
-        if via in ('mmsc', 'semicomp'):
-            m = draw(st.sampled_from([1, 1, 2, 3]))
-            sizes = [m] * ncalls
+        # one case in four is a history of 3-6 single-point calls on the same object that alternates between points
+        # outside the grid (when extrapolating), the boundary cells and the boundary nodes: the scalar code paths keep
+        # per-cell coefficient caches and the last bracket index between calls
+        history = draw(st.sampled_from([False, False, False, True]))
+        if history:
+            ncalls = draw(st.integers(3, 6))
+            sizes = [1] * ncalls
         else:
-            sizes = [draw(st.sampled_from([1, 1, 2, 3, 4])) for _ in range(ncalls)]
+            ncalls = draw(st.sampled_from([1, 2, 2, 3]))
+            if via in ('mmsc', 'semicomp'):
+                m = draw(st.sampled_from([1, 1, 2, 3]))
+                sizes = [m] * ncalls
+            else:
+                sizes = [draw(st.sampled_from([1, 1, 2, 3, 4])) for _ in range(ncalls)]
         calls = []
         for m in sizes:
+            if history:
+                pt = []
+                out_axis = draw(st.integers(0, dim - 1)) if (extrap and draw(st.booleans())) else -1
+                for i, g in enumerate(grids):
+                    if i == out_axis:
+                        pt.append(draw(coord(g, True, True)))
+                        continue
+                    where = draw(st.sampled_from(['first', 'last', 'lo', 'hi', 'any']))
+                    if where == 'lo':
+                        pt.append(float(g[0]))
+                    elif where == 'hi':
+                        pt.append(float(g[-1]))
+                    elif where == 'any':
+                        pt.append(draw(coord(g, False)))
+                    else:
+                        k = 0 if where == 'first' else len(g) - 2
+                        t = draw(st.sampled_from([0.5, 0.25, 0.9, 0.001, 0.999]))
+                        x = g[k] + t * (g[k + 1] - g[k])
+                        pt.append(float(x if g[k] < x < g[k + 1] else 0.5 * (g[k] + g[k + 1])))
+                calls.append([pt])
+                continue
             allow_out = draw(st.sampled_from([False, False, True]))
             batch = []
             for _ in range(m):
